@@ -83,12 +83,18 @@ type vPCSlot struct {
 
 func verifC15(extended bool) {
 	nSlots := 2
-	cfg := vStoreCfg{nickNullable: true}
+	cfg := vStoreCfg{nickNullable: true, links: true}
 	env := verifNewEnv(cfg)
 	defer env.close()
 	mgr := verifNewMgrStore(env.emp, extended)
-	mkEmp := func(id, name string) *vEmp { return &vEmp{Id: id, Name: name} }
-	mkMgr := func(id, name string, lead bool) *vMgr { return &vMgr{vEmp: vEmp{Id: id, Name: name}, Lead: lead} }
+	env.createDepts("x")
+	// every entity holds role r1 (parent set index) and is linked to dept x
+	// (parent link collection): both must follow child entities like plain ones
+	mkEmp := func(id, name string) *vEmp { return &vEmp{Id: id, Name: name, Roles: []string{"r1"}} }
+	mkMgr := func(id, name string, lead bool) *vMgr {
+		return &vMgr{vEmp: vEmp{Id: id, Name: name, Roles: []string{"r1"}}, Lead: lead}
+	}
+	linkX := func(ctx MutateContext, id string) error { return env.emp.depts.AddLinks(ctx.Tx(), id, "x") }
 
 	slots := make([]vPCSlot, nSlots)
 	for i := range slots {
@@ -107,10 +113,16 @@ func verifC15(extended bool) {
 		}
 		s := slots[i]
 		err := env.update(func(ctx MutateContext) error {
+			var err error
 			if s.kind == 1 {
-				return env.emp.Create(ctx, mkEmp(vIds[i], s.name))
+				err = env.emp.Create(ctx, mkEmp(vIds[i], s.name))
+			} else {
+				err = mgr.Create(ctx, mkMgr(vIds[i], s.name, s.lead))
 			}
-			return mgr.Create(ctx, mkMgr(vIds[i], s.name, s.lead))
+			if err != nil {
+				return err
+			}
+			return linkX(ctx, vIds[i])
 		})
 		verifrt.Assert(err == nil, "C15 creating a valid entity through either store succeeds")
 	}
@@ -146,6 +158,24 @@ func verifC15(extended bool) {
 			}
 			idx := Path(tx, vRootPath, IndexesBucket, vEmpType, vFName)
 			verifrt.Assert(idx != nil && verifCountKeys(idx.Bucket) == nPresent, label+": parent unique index has no stale entries")
+			// parent set index and parent link collection: exactly the present entities
+			r1 := Path(tx, vRootPath, IndexesBucket, vEmpType, vFRoles, "r1")
+			members := env.dept.GetEntityBucket(tx, []byte("x")).GetBucket(vFMembers)
+			nR1, nMembers := 0, 0
+			if r1 != nil {
+				nR1 = verifCountKeys(r1.Bucket)
+			}
+			if members != nil {
+				nMembers = verifCountKeys(members.Bucket)
+			}
+			verifrt.Assert(nR1 == nPresent, label+": parent set index lists exactly the present entities (child entities included)")
+			verifrt.Assert(nMembers == nPresent, label+": the other side of the parent's link collection lists exactly the present entities")
+			for i, s := range sl {
+				if s.kind != 0 {
+					verifrt.Assert(r1 != nil && r1.Get(PrependFieldType(TypeString, []byte(vIds[i]))) != nil, label+": parent set index lists the entity")
+					verifrt.Assert(members != nil && members.Get(PrependFieldType(TypeString, []byte(vIds[i]))) != nil, label+": dept x lists the entity as a member")
+				}
+			}
 			ids, count, err := mgr.QueryIds(tx, "true")
 			verifrt.Assert(err == nil && verifSameStrings(ids, wantChildIds) && count == int64(len(wantChildIds)), label+": child store query returns exactly the entities with child data (all when extended)")
 			var it []string
@@ -194,7 +224,7 @@ func verifC15(extended bool) {
 
 	next := append([]vPCSlot{}, slots...)
 	j := verifrt.Choose("slot", nSlots)
-	op := verifrt.Choose("op", 6)
+	op := verifrt.Choose("op", 8)
 	var err error
 	accept := true
 	nameTaken := func(name string) bool {
@@ -223,10 +253,16 @@ func verifC15(extended bool) {
 			next[j] = vPCSlot{kind: 2, name: name, lead: lead}
 		}
 		err = env.update(func(ctx MutateContext) error {
+			var err error
 			if op == 0 {
-				return env.emp.Create(ctx, mkEmp(vIds[j], name))
+				err = env.emp.Create(ctx, mkEmp(vIds[j], name))
+			} else {
+				err = mgr.Create(ctx, mkMgr(vIds[j], name, lead))
 			}
-			return mgr.Create(ctx, mkMgr(vIds[j], name, lead))
+			if err != nil {
+				return err
+			}
+			return linkX(ctx, vIds[j])
 		})
 	case 2, 3: // update through parent / child
 		name := verifrt.StringUpTo("newname", 1)
@@ -249,6 +285,30 @@ func verifC15(extended bool) {
 				return env.emp.Update(ctx, mkEmp(vIds[j], name), nil)
 			}
 			return mgr.Update(ctx, mkMgr(vIds[j], name, lead), nil)
+		})
+	case 6: // patch through the child store naming only the child field: shared fields stay
+		name := verifrt.StringUpTo("newname", 1)
+		lead := verifrt.Bool("newlead")
+		if slots[j].kind != 2 {
+			accept = false
+		} else {
+			next[j].lead = lead
+		}
+		err = env.update(func(ctx MutateContext) error {
+			return mgr.Update(ctx, mkMgr(vIds[j], name, lead), MapFieldChecker{"lead": struct{}{}})
+		})
+	case 7: // patch through the parent store naming only the shared name field: the child field stays
+		name := verifrt.StringUpTo("newname", 1)
+		switch {
+		case slots[j].kind == 0:
+			accept = false
+		case len(name) == 0 || nameTaken(name):
+			accept = false
+		default:
+			next[j].name = name
+		}
+		err = env.update(func(ctx MutateContext) error {
+			return env.emp.Update(ctx, &vEmp{Id: vIds[j], Name: name}, MapFieldChecker{vFName: struct{}{}})
 		})
 	case 4, 5: // delete through parent / child
 		if slots[j].kind == 0 {
